@@ -631,7 +631,7 @@ class MosaikRemote(mosaik_api_v3.MosaikProxy):
         # Try to get data from cache
         for full_id, attr_names in attrs.items():
             sid, eid = full_id.split(FULL_ID_SEP, 1)
-            src_sim = self.world.sims[sid]
+            src_sim = self._get_sim_for_async_request(sid)
             # Check if async_requests are enabled.
             self._assert_async_requests(src_sim, self.sim)
             if self.world.use_cache:
@@ -670,7 +670,7 @@ class MosaikRemote(mosaik_api_v3.MosaikProxy):
         for src_full_id, dest in data.items():
             for full_id, attributes in dest.items():
                 sid, eid = full_id.split(FULL_ID_SEP, 1)
-                src_sim = self.world.sims[sid]
+                src_sim = self._get_sim_for_async_request(sid)
                 self._assert_async_requests(src_sim, self.sim)
                 inputs = src_sim.inputs_from_set_data.setdefault(eid, {})
                 for attr, val in attributes.items():
@@ -696,6 +696,19 @@ class MosaikRemote(mosaik_api_v3.MosaikProxy):
                 sim_id=sim.sid,
                 until=self.world.until,
             )
+
+    def _get_sim_for_async_request(self, sid: SimId) -> SimRunner:
+        """
+        Return the simulator *sid* that an async. request refers to and
+        raise a :exc:`ScenarioError` if there is no such simulator.
+        """
+        try:
+            return self.world.sims[sid]
+        except KeyError:
+            raise ScenarioError(
+                f"Simulator {self.sid} made an async. request to the simulator "
+                f"{sid}, which does not exist."
+            ) from None
 
     def _assert_async_requests(self, src_sim: SimRunner, dest_sim: SimRunner):
         """
